@@ -41,7 +41,7 @@ ASSUMPTIONS = ['a message that waits for a pool slot the harness itself is occup
                'liveness restated: after every timer has been fired and nothing is in flight nothing may remain stored']
 REQUIRED_HITS = ['attempt-outcomes-observed', 'histories-judged', 'timer-expiries', 'full-quiescence-checkpoints',
                  'flush-while-load-streaming-judged', 'announcement-of-listed-id-while-load-streaming',
-                 'burst-20-equal-due-bounded-pool', 'late-timer-steps',
+                 'burst-20-equal-due-bounded-pool', 'big-backlog-histories-judged', 'late-timer-steps',
                  'non-integer-or-negative-waits']
 SHARDS = {'quick': 12, 'thorough': 16}
 BUDGET = {'quick': 70, 'thorough': 800}
@@ -82,6 +82,21 @@ def gen_cases(tier, seed, shard, nshards):
                    'gate_p': rnd.choice([0.6, 0.9]), 'gate_ops': ['load'], 'flush_p': 0, 'race_start': True,
                    'synth_wait': True, 'announce_p': 0.9, 'bounce_none_p': 1.0, 'steps': 40,
                    'hold_clock_in_load': rnd.random() < 0.8}
+            yield {'cfg': cfg, 'seed': rnd.randrange(1 << 40)}
+    # ---- a large start-up backlog (hundreds of stored messages, beyond any batching / yielding threshold of the
+    # loader) with enqueues and due messages being delivered and removed while the listing is still running
+    nbb = (36 if tier == 'quick' else 480)
+    for be in ('dict', 'dict', 'dict', 'cloud-lenient'):
+        for i in range(max(1, nbb // 4 // nshards)):
+            cfg = {'backend': be, 'stratum': 'big-backlog',
+                   'profile': rnd.choice([['ok', 'ok', 'temp'], ['ok']]), 'rcpt_profile': ['ok', 'temp'],
+                   'backoffs': rnd.choice([[5, None], [0, 5, None]]),
+                   'rcpts': (1, 1), 'nmsg': rnd.randint(1, 3), 'prepop': rnd.choice([258, 270, 300]),
+                   'prepop_offsets': rnd.choice([[-1.0, 60.0, 60.0, 60.0], [60.0], [-1.0, -1.0, 3600.0]]),
+                   'store_pool': rnd.choice([None, None, 4]), 'relay_pool': rnd.choice([None, None, 8]),
+                   'gate_p': 0.0, 'flush_p': rnd.choice([0, 0.2]), 'race_start': True,
+                   'synth_wait': rnd.random() < 0.3, 'announce_p': 0.2, 'bounce_none_p': 1.0,
+                   'steps': 25, 'drain_rounds': 1200}
             yield {'cfg': cfg, 'seed': rnd.randrange(1 << 40)}
     # ---- many messages due at the same instant, bounded pools: _check_ready / flush() block in Pool.spawn
     # with most of the cut still to hand over while finished attempts re-queue
@@ -144,6 +159,9 @@ def _hits(lab, H, R):
             n += 1
             nent += len(e[4] or ()) if len(e) > 4 else 0
     R.hit('flush-while-load-streaming-judged', n)
+    if lab.cfg.get('stratum') == 'big-backlog':
+        R.hit('big-backlog-histories-judged')
+        R.count('big-backlog-load-entries', sum(1 for e in lab.events if e[1] == 'store' and e[2] == 'load_entry'))
     # a wait() announcement of an id the start-up listing has already yielded, consumed before the listing ended
     listed, loading, nann = set(), False, 0
     for e in lab.events:
